@@ -90,3 +90,68 @@ func VerifC16WriteDuringMerge() {
 	kvSameMap(kva.All(), kvReplay(a), "C16/C06 the view equals the replay of the log once everything is quiet")
 	vstub.Assert(len(kva.All()) == n+1 || n > len(remoteKeys), "C16 every written key is served")
 }
+
+func init() {
+	verifHarnesses["VerifC06ReadDuringWrite"] = VerifC06ReadDuringWrite
+}
+
+// VerifC06ReadDuringWrite: a reader (All, then Get of the key being written)
+// runs at ANY visible operation of a local Put / Delete or of the merge of a
+// remote batch.  Once the write has returned and everything is quiet, Get and
+// All equal the replay of the log (nothing read in the window between the log
+// append and the view update stays behind).
+func VerifC06ReadDuringWrite() {
+	blocks := vstub.NewBlocks(nil)
+	ac := vstubodb.WriteAll()
+	a := vstubodb.Open(NewOrbitDBKeyValue, "a", blocks, ac, false, nil)
+	b := vstubodb.Open(NewOrbitDBKeyValue, "b", blocks, ac, false, nil)
+	if a == nil || b == nil {
+		return
+	}
+	ctx := context.Background()
+	kva, kvb := a.Store.(*orbitDBKeyValue), b.Store.(*orbitDBKeyValue)
+	if _, err := kva.Put(ctx, "k1", vstub.NdBytes("v0", 1)); err != nil {
+		vstub.Fail("C06 Put failed")
+		return
+	}
+	_ = kva.All()
+	done := make(chan struct{})
+	reader := func() {
+		defer close(done)
+		_ = kva.All()
+		_, _ = kva.Get(ctx, "k1")
+	}
+	fired := false
+	vstub.FaultAtAnyStep(func() { fired = true; go reader() })
+	switch vstub.NdChoice("write", 3) {
+	case 0:
+		if _, err := kva.Put(ctx, "k1", vstub.NdBytes("v1", 1)); err != nil {
+			vstub.Fail("C06 Put failed")
+		}
+		vstub.Cover("put")
+	case 1:
+		if _, err := kva.Delete(ctx, "k1"); err != nil {
+			vstub.Fail("C06 Delete failed")
+		}
+		vstub.Cover("delete")
+	case 2:
+		if _, err := kvb.Put(ctx, "k2", vstub.NdBytes("v2", 1)); err != nil {
+			vstub.Fail("C06 remote Put failed")
+		}
+		a.SyncFrom(b)
+		vstub.Cover("merge")
+	}
+	vstub.FaultDisarm()
+	if fired {
+		<-done
+		vstub.Cover("read-during-write")
+	}
+	vstub.WaitIdle()
+	for round := 0; round < 2; round++ {
+		kvSameMap(kva.All(), kvReplay(a), "C06 after a write with a concurrent reader the view equals the replay of the log")
+	}
+	want := kvReplay(a)
+	got, err := kva.Get(ctx, "k1")
+	w, present := want["k1"]
+	vstub.Assert(err == nil && (got != nil) == present && (!present || string(got) == string(w)), "C06 after a write with a concurrent reader Get returns the replayed value")
+}
